@@ -187,6 +187,10 @@ RoundTrip ==
 (* its prefixes; with one switch on it tells which deviation a difference is owed to.                         *)
 
 LopdfDevs == {"needsprev", "afterprev", "newestonly", "freeignored"}
+\* the deviations of the tree under test (all four on the pinned tree; a repaired loader has fewer - the candidate
+\* repairs proposed_fixes/beyond-C02-*.diff remove the first three and the last one respectively)
+LopdfAsIs == LopdfDevs
+OnlyFreeIgnored == {"freeignored"}
 
 PlainNumsOf(r) == {Doc.revs[r].objs[i].num : i \in 1..Len(Doc.revs[r].objs)}
 MemberNumsOf(r) == UNION {{Doc.revs[r].comp[c].members[m].num : m \in 1..Len(Doc.revs[r].comp[c].members)} : c \in 1..Len(Doc.revs[r].comp)}
@@ -267,7 +271,7 @@ ImplRefines ==
     (Done /\ Beyond # "off") => \A j \in 1..Len(Doc.revs) : NoDifference(Prediction(j, {}))
 
 PredictionJson(j) ==
-    LET p == Prediction(j, LopdfDevs)
+    LET p == Prediction(j, LopdfAsIs)
     IN [missing |-> SortedSet(p.missing), stale |-> SortedSet(p.stale), extra |-> SortedSet(p.extra), maybe |-> SortedSet(p.maybe),
         owedto |-> {d \in LopdfDevs : ~NoDifference(Prediction(j, {d}))},
         deleted |-> SortedSet(DeletedUpTo(Doc.revs, j)), hidden |-> SortedSet(HiddenUpTo(j))]
